@@ -377,6 +377,8 @@ def shard_b(ctx, arg):
                 continue
             if arg.get("limit") and done >= arg["limit"]:
                 return
+            if arg.get("only") and arg["only"] != "%s->%s%s" % (m.get_class_name(), m.get_name(), m.get_descriptor()):
+                continue
             done += 1
             state["method"] = "%s->%s%s" % (m.get_class_name(), m.get_name(), m.get_descriptor())
             state["file"] = arg["file"]
@@ -420,3 +422,25 @@ def run(ctx):
     ctx.require_counter("build_def_use_calls_via_decompile", 50)
     ctx.require_counter("use_keys_compared", 5000)
     ctx.min_distinct = 200
+
+
+def replay(ctx, path):
+    """re-run stored workload-A witnesses (graphs); workload-B witnesses name the method and file and are re-run by decompiling it"""
+    import json
+    from androguard.decompiler import dataflow
+    with open(path) as f:
+        j = json.load(f)
+    ctx.rule = "replay of stored witnesses"
+    ctx.min_distinct = 1
+    for w in j["witnesses"]:
+        case = w.get("case")
+        if case:
+            g, _ = build_real(case)
+            snap = snapshot(g, case["params"])
+            ctx.ev()
+            UD, DU = dataflow.build_def_use(g, case["params"])
+            compare(ctx, snap, UD, DU, "A", lambda: {"case": case})
+            ctx.sig("A", repr(case))
+            ctx.sample({"case": case, "UD": {repr(k): sorted(v) for k, v in UD.items()}})
+        elif w.get("file"):
+            ctx.run_shards(MOD, "shard_b", [{"file": w["file"], "mod": 1, "rem": 0, "only": w.get("method")}], timeout=1500)
